@@ -9,3 +9,65 @@ package io
 // it cannot handle (callers recover), it does not touch the caller's state.
 //@ func Convert
 //@   havoc
+
+// ---- the decoder's input window (C04, C05) ---------------------------------------------
+//
+// Representation: buf[head:tail] is the part of the input that is loaded and not yet consumed.
+// In memory mode (reader == nil) buf[0:tail] is the whole input. In reader mode the window is a
+// copy of the reader's stream just before the reader's position (coupling invariant): the byte
+// at buf[i], head <= i < tail, is stream byte rpos - tail + i. The logical position of the
+// decoder is head in memory mode and rpos - (tail - head) in reader mode; every primitive's
+// effect is stated on that position, so it does not depend on how the reader cuts the stream.
+
+//@ modset DECWIN = dec.head, dec.tail, dec.buf, dec.Error, ghost.rpos[ival(dec.reader)]
+
+//@ template decwf
+//@   requires dec != nil && 0 <= dec.head && dec.head <= dec.tail && dec.tail <= len(dec.buf)
+//@   requires dec.reader != nil ==> ghost.rpos[ival(dec.reader)] >= dec.tail &&
+//@       forall(i, dec.head, dec.tail, dec.buf[i] == ghost.rstream[ival(dec.reader)][ghost.rpos[ival(dec.reader)] - dec.tail + i])
+//@   stable dec.reader
+//@   ensures [window_well_formed] 0 <= dec.head && dec.head <= dec.tail && dec.tail <= len(dec.buf)
+//@   ensures [window_mirrors_the_stream] dec.reader != nil ==> ghost.rpos[ival(dec.reader)] >= dec.tail &&
+//@       forall(i, dec.head, dec.tail, dec.buf[i] == ghost.rstream[ival(dec.reader)][ghost.rpos[ival(dec.reader)] - dec.tail + i])
+//@   ensures [error_is_sticky] old(dec.Error) != nil ==> dec.Error != nil
+//@   ensures [memory_input_is_never_written] dec.reader == nil ==> same(dec.buf, old(dec.buf)) && dec.tail == old(dec.tail)
+
+// loadMore: called when the window is (logically) consumed. Memory mode: end of input, an error
+// is recorded. Reader mode: either a new non-empty window that continues the stream exactly
+// where the old one ended, or failure with an error recorded and an empty window.
+//@ func (*Decoder).loadMore
+//@   prop C04 C05
+//@   nopanic
+//@   requires dec != nil && 0 <= dec.tail && dec.tail <= len(dec.buf)
+//@   stable dec.reader
+//@   modifies @DECWIN, dec.buf[*]
+//@   ensures [memory_mode_is_end_of_input] dec.reader == nil ==> !result && dec.head == dec.tail && dec.tail == old(dec.tail) && dec.Error != nil && same(dec.buf, old(dec.buf))
+//@   ensures [refill_continues_the_stream] dec.reader != nil && result ==> dec.head == 0 && 0 < dec.tail && dec.tail <= len(dec.buf) &&
+//@       ghost.rpos[ival(dec.reader)] == old(ghost.rpos[ival(dec.reader)]) + dec.tail &&
+//@       forall(i, 0, dec.tail, dec.buf[i] == ghost.rstream[ival(dec.reader)][old(ghost.rpos[ival(dec.reader)]) + i])
+//@   ensures [failed_refill_is_an_error] dec.reader != nil && !result ==> dec.head == 0 && dec.tail == 0 && dec.Error != nil &&
+//@       ghost.rpos[ival(dec.reader)] == old(ghost.rpos[ival(dec.reader)])
+//@   ensures [error_is_sticky] old(dec.Error) != nil ==> dec.Error != nil
+//@   loop 1 invariant dec.buf != nil && len(dec.buf) > 0 && ghost.rpos[ival(dec.reader)] == old(ghost.rpos[ival(dec.reader)]) && (old(dec.Error) != nil ==> dec.Error != nil)
+
+//@ func (*Decoder).NextByte
+//@   prop C04 C05
+//@   nopanic
+//@   use decwf
+//@   modifies @DECWIN, dec.buf[*]
+//@   ensures [memory_next_byte] dec.reader == nil && old(dec.head) < old(dec.tail) ==> b == old(dec.buf[dec.head]) && dec.head == old(dec.head) + 1 && dec.Error == old(dec.Error)
+//@   ensures [memory_end_of_input] dec.reader == nil && old(dec.head) == old(dec.tail) ==> b == 0 && dec.head == old(dec.head) && dec.Error != nil
+//@   ensures [stream_next_byte_or_error] dec.reader != nil ==>
+//@       (b == ghost.rstream[ival(dec.reader)][old(ghost.rpos[ival(dec.reader)] - dec.tail + dec.head)] &&
+//@        ghost.rpos[ival(dec.reader)] - dec.tail + dec.head == old(ghost.rpos[ival(dec.reader)] - dec.tail + dec.head) + 1) ||
+//@       (b == 0 && dec.Error != nil && ghost.rpos[ival(dec.reader)] - dec.tail + dec.head == old(ghost.rpos[ival(dec.reader)] - dec.tail + dec.head))
+
+//@ func (*Decoder).Skip
+//@   prop C04 C05
+//@   nopanic
+//@   use decwf
+//@   modifies @DECWIN, dec.buf[*]
+//@   ensures [memory_skips_one] dec.reader == nil ==> dec.head == ite(old(dec.head) < old(dec.tail), old(dec.head) + 1, old(dec.head))
+//@   ensures [stream_skips_one_or_error] dec.reader != nil ==>
+//@       ghost.rpos[ival(dec.reader)] - dec.tail + dec.head == old(ghost.rpos[ival(dec.reader)] - dec.tail + dec.head) + 1 ||
+//@       (dec.Error != nil && ghost.rpos[ival(dec.reader)] - dec.tail + dec.head == old(ghost.rpos[ival(dec.reader)] - dec.tail + dec.head))
